@@ -35,13 +35,19 @@ def time_limit(seconds):
 
 
 def innermost_frame(tb):
-    """(file, function) of the innermost norminette frame of a traceback."""
-    last = None
+    """(file, function) of the innermost norminette frame of a traceback; frames of the generic helpers
+    (errors.py, Context.new_error / new_warning / peek_token) are skipped in favour of their caller, so that
+    the site that misused them is named."""
+    frames = []
     for fr, _ in traceback.walk_tb(tb):
         fn = fr.f_code.co_filename
         if "/norminette/" in fn:
-            last = (os.path.relpath(fn, REPO), fr.f_code.co_name)
-    return last
+            frames.append((os.path.relpath(fn, REPO), fr.f_code.co_name))
+    generic = {("norminette/errors.py", "from_token"), ("norminette/context.py", "new_error"),
+               ("norminette/context.py", "new_warning"), ("norminette/context.py", "peek_token")}
+    while len(frames) > 1 and frames[-1] in generic:
+        frames.pop()
+    return frames[-1] if frames else None
 
 
 def diag_tuple(e):
